@@ -132,7 +132,7 @@ Creds == {NoCred} \cup {Cred("cookie", "good", u, fs) : u \in Users, fs \in Cook
          \* typed_other: HTTP Basic with the name capitalised and the password of the backend's OTHER account of that spelling
          \cup {Cred("basic", v, u, {}) : v \in {"ok", "badpw", "typed_other"}, u \in {"alice", "root"}}
          \cup {Cred("kmcert", v, u, {}) : v \in {"good", "denied", "adminca"}, u \in {"alice", "root"}}
-         \cup {Cred("ipcert", v, "svc", {}) : v \in {"inside", "outside", "outside_near", "loopback_xff", "inside_othercookie"}}
+         \cup {Cred("ipcert", v, "svc", {}) : v \in {"inside", "outside", "outside_near", "loopback_xff", "inside_othercookie", "inside_expired", "inside_notyet"}}
          \* *_othercookie: a good certificate and, riding along, the good password session of ANOTHER user (bob): two
          \* credentials that name different people establish no identity at all (not Valid)
          \cup {Cred("kmcert", "good_othercookie", "alice", {})}
